@@ -423,7 +423,10 @@ class DSG:
         if self._influence_matrix is None or self._status_array is None:
             return []
 
-        return self._influence_matrix.get_next_choice_nodes(self._status_array)
+        # If the graph became infeasible, the status array may still list choices that were removed from the graph
+        graph_nodes = self._graph.nodes
+        return [node for node in self._influence_matrix.get_next_choice_nodes(self._status_array)
+                if node in graph_nodes]
 
     def ordered_choice_nodes(self, choice_nodes):
         return sorted(choice_nodes, key=self._choice_sort_key)
